@@ -425,6 +425,7 @@ def run_check(prop, tier, seed, replay=None):
             "result_histogram": dict(sorted(result_hist.items(), key=lambda kv: -kv[1])[:60]),
             "leanchecker": leanchecker,
             "model_drift": drift,
+            "source_basis": C.source_basis(),
             "sweeps": sweep_stats,
             "projection_disagreements": len([v for v in uniq if v.kind == "projection"]),
             "relation_failures": len([v for v in uniq if v.kind == "relation"]),
